@@ -5,7 +5,12 @@ import glob, json, os, re
 # outcome of the last complete sensitivity run (mutants/REPORT.md, last '## run' section)
 final = {}
 try:
-    rep = open('mutants/REPORT.md').read().split('## run ')[-1].splitlines()
+    secs = open('mutants/REPORT.md').read().split('## run ')
+    # from the last FULL run (pattern='') on; later partial re-runs override
+    last_full = max(i for i, sec in enumerate(secs) if "pattern=''" in sec.splitlines()[0])
+    rep = []
+    for sec in secs[last_full:]:
+        rep += sec.splitlines()
     for ln in rep:
         mm = re.match(r'- (KILLED|SURVIVED)\s+(C\d\d) (\S+)(?: :: (.*))?', ln)
         if mm:
